@@ -30,7 +30,7 @@ ASSUMPTIONS = [
     "the initial distribution uses the assigned constant stds also when stds_from_data=True (as the implementation documents: time-varying values apply to the in-sample periods)",
     "absolute tolerance floors scale with the prior standard deviation of the quantity (1e-7 x for means, 1e-8 x variance for variances): smoothed variances that are exactly zero come back as cancellation noise whose size depends on the BLAS build",
     "predict_mse_obs is compared only when rescale_variance=False",
-    "unit-root models / diffuse initialisation are not generated in this check",
+    "unit-root models (kalman_unit_root, default diffuse method) are judged by metamorphic relations only - level mode on the data vs deviation mode on data minus steady state (likelihood, means, stds), contributions summing to the total - because the concentrated likelihood depends on the parameterisation of the unknown initial condition, which the property does not fix",
 ]
 
 RT_MEAN = 1e-7
@@ -229,6 +229,64 @@ def _check(case):
     return None
 
 
+# ---------------------------------------------------------------------------
+# Unit-root models under the default diffuse method: metamorphic oracle
+# ---------------------------------------------------------------------------
+
+def _check_unit_root(case):
+    """Level mode on the data must equal deviation mode on data minus steady state: same likelihood, same
+    standard deviations, means shifted by the steady state (ratio for log-variables)."""
+    from checks import c08_smoother as c08
+    col = Collector()
+    prep = c08.prepare_unit_root(case)
+    if isinstance(prep, dict):
+        return prep
+    case, spec, m, start, xs, ys = prep
+    N, log = case["N"], spec["log"]
+    span = start >> (start + N - 1)
+    res = {}
+    for dev in (False, True):
+        levels, lin = c08._observed(spec, case, dev, ys)
+        db = kc.input_databox(spec, dict(case, deviation=dev), start, levels)
+        out, info = api("kalman_filter", m.kalman_filter, db, span, return_info=True, deviation=dev, rescale_variance=case["rescale"])
+        res[dev] = (out, info)
+        contrib = np.asarray(info["neg_log_likelihood_contributions"].get_data(span))[:, 0]
+        tot = float(info["neg_log_likelihood"])
+        if math.isfinite(tot):
+            col.check(_close(float(np.sum(contrib)), tot, 1e-9, 1e-9), "unit_root:contributions_sum", lambda: f"{float(np.sum(contrib))!r} vs {tot!r} (deviation={dev})")
+        for t in range(N):
+            if all(case["mask"][t]):
+                col.check(contrib[t] == 0, "unit_root:empty_period_contributes", lambda: f"period {t}: {contrib[t]!r}")
+    (oL, iL), (oD, iD) = res[False], res[True]
+    a, b = float(iL["neg_log_likelihood"]), float(iD["neg_log_likelihood"])
+    if case["rescale"] and (min(float(iL["var_scale"]), float(iD["var_scale"])) < 1e-10 or not (math.isfinite(a) and math.isfinite(b))):
+        # the unknown initial condition fits the few observations perfectly: the variance scale is zero
+        return {"labels": ["degenerate_variance_scale"], "nontrivial": False}
+    col.check(_close(a, b, 1e-7, 1e-7), "unit_root:likelihood_level_vs_deviation", lambda: f"level mode {a!r}, deviation mode {b!r}\n{lm.source(spec)}")
+    col.check(_close(float(iL["var_scale"]), float(iD["var_scale"]), 1e-7, 1e-9), "unit_root:var_scale_level_vs_deviation", "")
+    steady = dict(zip(spec["names"], xs))
+    steady.update(zip(lm.meas_names(spec), ys))
+    for step in ("predict", "update", "smooth"):
+        for nm in spec["names"]:
+            for t in range(N):
+                gL, gD = _val(oL[f"{step}_med"], nm, start, t), _val(oD[f"{step}_med"], nm, start, t)
+                if log:
+                    gL, gD = (math.log(gL) if gL > 0 else float("nan")), (math.log(gD) if gD > 0 else float("nan"))
+                col.check(_close(gL - steady[nm], gD, 1e-7, 1e-6 * (1 + abs(steady[nm]))), f"unit_root:{step}_med_level_vs_deviation",
+                          lambda: f"{step}_med[{nm}] t={t}: level {gL!r} - steady {steady[nm]!r} vs deviation {gD!r}\n{lm.source(spec)}")
+                sname = f"log({nm})" if log else nm
+                sL, sD = _val(oL[f"{step}_std"], sname, start, t), _val(oD[f"{step}_std"], sname, start, t)
+                col.check(_close(sL, sD, 1e-6, 1e-6), f"unit_root:{step}_std_level_vs_deviation", lambda: f"{step}_std[{nm}] t={t}: {sL!r} vs {sD!r}")
+    col.done()
+    return {"labels": ["judged"], "nontrivial": True}
+
+
+def _unit_root_strategy():
+    from checks import c08_smoother as c08
+    return c08._unit_root_case()
+
+
 SUBCHECKS = [
     HypSub("kalman", kc.kalman_case, _check, _classify, budget={"quick": 1200, "thorough": 16000}),
+    HypSub("kalman_unit_root", _unit_root_strategy, _check_unit_root, _classify, budget={"quick": 400, "thorough": 8000}),
 ]
